@@ -1489,6 +1489,30 @@ Theorem C03_no_zero_divisor_in_the_solver_2d_partial :
        fteik2d_ok false true slow dz dx zsrc xsrc nsweep grad = true.
 Proof. exact @DivSafe.fteik2d_ok_div_partial. Qed.
 
+(* 3D node update: no division by zero for positive derived spacing factors, any arrays, indices, signs, flag *)
+Theorem C03_no_zero_divisor_in_a_node_update_3d :
+  forall (tt : arr R) (ttsgn : arr Z) (slow : arr R) (dz dx dy dz2i dx2i dy2i dz2dx2 dz2dy2 dx2dy2 dsum : R)
+         (i j k sgnvz sgnvx sgnvy sgntz sgntx sgnty nz nx ny : Z) (grad : bool),
+       (0 < dz2i)%R ->
+       (0 < dx2i)%R ->
+       (0 < dy2i)%R ->
+       (0 < dsum)%R ->
+       sweep_ok false true tt ttsgn slow (dz, dx, dy, dz2i, dx2i, dy2i, dz2dx2, dz2dy2, dx2dy2, dsum) i j k sgnvz sgnvx
+         sgnvy sgntz sgntx sgnty nz nx ny grad = true.
+Proof. exact @DivSafe.sweep3_ok_div. Qed.
+
+(* a whole 3D pass, positive spacings *)
+Theorem C03_no_zero_divisor_in_a_pass_3d :
+  forall (tt : arr R) (ttsgn : arr Z) (slow : arr R) (dz dx dy : R) (nz nx ny : Z) (grad : bool),
+       (0 < dz)%R -> (0 < dx)%R -> (0 < dy)%R -> sweep3d_ok false true tt ttsgn slow dz dx dy nz nx ny grad = true.
+Proof. exact @DivSafe.sweep3d_ok_div. Qed.
+
+(* the WHOLE 3D solver (domain test, source location, initialisation, all sweeps, gradient assembly): no division by zero for positive spacings - no hypothesis on the model, the source, nsweep or the flag (exact arithmetic) *)
+Theorem C03_no_zero_divisor_in_the_solver_3d :
+  forall (slow : arr R) (dz dx dy zsrc xsrc ysrc : R) (nsweep : Z) (grad : bool),
+       (0 < dz)%R -> (0 < dx)%R -> (0 < dy)%R -> fteik3d_ok false true slow dz dx dy zsrc xsrc ysrc nsweep grad = true.
+Proof. exact @DivSafe.fteik3d_ok_div. Qed.
+
 Print Assumptions C03_solve2d_raises_iff_source_outside.
 Print Assumptions C03_solve3d_raises_iff_source_outside.
 Print Assumptions C03_initial_grid_shape_2d.
@@ -1532,3 +1556,6 @@ Print Assumptions C03_no_zero_divisor_in_a_node_update_2d.
 Print Assumptions C03_no_zero_divisor_in_a_pass_2d.
 Print Assumptions C03_no_zero_divisor_locating_the_source_2d.
 Print Assumptions C03_no_zero_divisor_in_the_solver_2d_partial.
+Print Assumptions C03_no_zero_divisor_in_a_node_update_3d.
+Print Assumptions C03_no_zero_divisor_in_a_pass_3d.
+Print Assumptions C03_no_zero_divisor_in_the_solver_3d.
